@@ -731,11 +731,127 @@ func specFixed() seqmc.Spec {
 	}}
 }
 
+// specRefill: every sequence of <=maxLen operations {Next, Add of a one-shot
+// value at timestamp 3 / 5 / 7 / 10, Add of a value that repeats once more 4
+// later} on a generator created with one-shot values at 5 and 10 - a generator
+// that is drained (partly or completely) and refilled. Reference model: a list
+// kept sorted by timestamp, stable among equal timestamps; Latest is the
+// highest timestamp ever inserted.
+func specRefill(maxLen int) seqmc.Spec {
+	type rop struct {
+		kind   string
+		ts     int64
+		repeat int32
+	}
+	alpha := []rop{{"next", 0, 0}, {"add", 3, 1}, {"add", 5, 1}, {"add", 7, 1}, {"add", 10, 1}, {"add", 3, 2}}
+	var seqs [][]int
+	var rec func(cur []int)
+	rec = func(cur []int) {
+		if len(cur) > 0 {
+			seqs = append(seqs, append([]int{}, cur...))
+		}
+		if len(cur) == maxLen {
+			return
+		}
+		for i := range alpha {
+			rec(append(cur, i))
+		}
+	}
+	rec(nil)
+	type ment struct {
+		ts     int64
+		id     int64
+		repeat int32
+	}
+	mk := func(id, ts int64, repeat int32) *fpb.Value {
+		return &fpb.Value{Path: []string{"v"}, Repeat: repeat, Timestamp: &fpb.Timestamp{Timestamp: ts, DeltaMin: 4, DeltaMax: 4}, Value: &fpb.Value_Sync{Sync: uint64(id)}}
+	}
+	return seqmc.Spec{Name: fmt.Sprintf("drain and refill: every sequence of <=%d operations over Next / Add(one-shot at 3,5,7,10) / Add(repeating once more, +4) on a generator holding one-shot values at 5 and 10, against a stable sorted list", maxLen), N: len(seqs), Run: func(i int) (string, bool, []seqmc.Violation) {
+		var model []ment
+		latest := int64(0)
+		insert := func(e ment) {
+			if e.ts > latest {
+				latest = e.ts
+			}
+			k := len(model)
+			for j, m := range model {
+				if m.ts > e.ts {
+					k = j
+					break
+				}
+			}
+			model = append(model[:k], append([]ment{e}, model[k:]...)...)
+		}
+		q := queue.New(false, 1, []*fpb.Value{mk(1, 5, 1), mk(2, 10, 1)})
+		insert(ment{5, 1, 1})
+		insert(ment{10, 2, 1})
+		next := int64(3)
+		var names []string
+		for _, k := range seqs[i] {
+			o := alpha[k]
+			if o.kind == "add" {
+				names = append(names, fmt.Sprintf("Add(#%d@%d repeat=%d)", next, o.ts, o.repeat))
+				q.Add(mk(next, o.ts, o.repeat))
+				insert(ment{o.ts, next, o.repeat})
+				next++
+			} else {
+				names = append(names, "Next")
+				v, err := q.Next()
+				desc := strings.Join(names, "; ")
+				if err != nil {
+					return desc, true, vio("refill-next-error", "%s: Next returned %v", desc, err)
+				}
+				if len(model) == 0 {
+					if v != nil {
+						return desc, true, vio("refill-order", "%s: the generator is empty but Next returned %v", desc, v)
+					}
+					continue
+				}
+				h := model[0]
+				model = model[1:]
+				fv, _ := v.(*fpb.Value)
+				if v == nil || fv == nil || int64(fv.GetSync()) != h.id || fv.GetTimestamp().GetTimestamp() != h.ts {
+					return desc, true, vio("refill-order", "%s: Next returned %v, the earliest pending value is #%d@%d (timestamp order, insertion order among equals)", desc, v, h.id, h.ts)
+				}
+				if h.repeat > 1 {
+					insert(ment{h.ts + 4, h.id, h.repeat - 1})
+				}
+			}
+			if got := q.Latest(); got != latest {
+				desc := strings.Join(names, "; ")
+				return desc, true, vio("refill-latest", "%s: Latest() = %d, the highest timestamp ever inserted is %d", desc, got, latest)
+			}
+		}
+		// finally drain the generator: everything pending comes out in model order
+		desc := strings.Join(names, "; ")
+		for step := 0; len(model) > 0 && step < 64; step++ {
+			h := model[0]
+			model = model[1:]
+			v, err := q.Next()
+			fv, _ := v.(*fpb.Value)
+			if err != nil || v == nil || fv == nil || int64(fv.GetSync()) != h.id || fv.GetTimestamp().GetTimestamp() != h.ts {
+				return desc, true, vio("refill-order", "%s; then draining: Next #%d returned %v (%v), the earliest pending value is #%d@%d", desc, step+1, v, err, h.id, h.ts)
+			}
+			if h.repeat > 1 {
+				insert(ment{h.ts + 4, h.id, h.repeat - 1})
+			}
+		}
+		if v, _ := q.Next(); v != nil {
+			return desc, true, vio("refill-order", "%s; drained, but Next still returns %v", desc, v)
+		}
+		return desc, true, nil
+	}}
+}
+
 type harness struct{}
 
 func (harness) Property() string { return "C20" }
 func (harness) Specs(tier string) []seqmc.Spec {
-	return []seqmc.Spec{specGrid(tier), specFixed()}
+	n := 6
+	if tier == "thorough" {
+		n = 8
+	}
+	return []seqmc.Spec{specGrid(tier), specFixed(), specRefill(n)}
 }
 
 func main() { seqmc.Main(harness{}) }
